@@ -95,8 +95,8 @@ func (w *world) commit(st *state.StateDB) (common.Hash, error) {
 }
 
 // applyMut applies a state-mutating letter (everything except the instance/snapshot control letters) to st.
-// nlogs is the number of logs the instance holds (position-dependent log payload).
-func applyMut(st *state.StateDB, o op, nlogs int) {
+// arg is the payload of a log.
+func applyMut(st *state.StateDB, o op, arg int) {
 	switch o.k {
 	case kAddBal:
 		st.AddBalance(addrs[o.a], big.NewInt(o.v))
@@ -121,7 +121,7 @@ func applyMut(st *state.StateDB, o op, nlogs int) {
 	case kSuicide:
 		st.Suicide(addrs[o.a])
 	case kAddLog:
-		st.AddLog(&types.Log{Address: addrs[0], Data: []byte{byte(nlogs + 1)}})
+		st.AddLog(&types.Log{Address: addrs[0], Data: []byte{byte(arg)}})
 	case kAddRefund:
 		st.AddRefund(uint64(o.v))
 	case kPrepare:
@@ -131,8 +131,8 @@ func applyMut(st *state.StateDB, o op, nlogs int) {
 	}
 }
 
-// apply executes o on the real world. m is the model BEFORE o (for the log payload only).
-func (w *world) apply(o op, m *mworld) error {
+// apply executes o on the real world (arg: payload of a log).
+func (w *world) apply(o op, arg int) error {
 	st := w.inst[w.act]
 	switch o.k {
 	case kSnapshot:
@@ -157,7 +157,7 @@ func (w *world) apply(o op, m *mworld) error {
 			return err
 		}
 	default:
-		applyMut(st, o, len(m.inst[m.act].logs))
+		applyMut(st, o, arg)
 	}
 	return nil
 }
@@ -190,12 +190,26 @@ func logStr(l *types.Log) string {
 	return fmt.Sprintf("[i%d,tx%x,d%x]", l.Index, l.TxHash[30:], l.Data)
 }
 
-func observe(st *state.StateDB) iobs {
+// observed: accounts the getters are evaluated on. An account no letter of the running search's alphabet names
+// is only asked for existence (every other getter of the repo goes through the same lookup and returns the
+// zero value for a missing account; each costs a trie lookup).
+type observed [nAddr]bool
+
+func observe(st *state.StateDB, used observed) iobs {
 	var o iobs
 	for a := 0; a < nAddr; a++ {
 		ad := addrs[a]
 		x := &o.acc[a]
 		x.exist = st.Exist(ad)
+		if !used[a] && !x.exist {
+			x.bal, x.native = "0", "0"
+			for t := 0; t < nTok; t++ {
+				x.tok[t] = "0"
+			}
+			x.codeHash = common.EmptyHash.Hex()
+			x.empty = true
+			continue
+		}
 		x.suicided = st.HasSuicided(ad)
 		x.bal = st.GetBalance(ad).String()
 		for t := 0; t < nTok; t++ {
